@@ -166,6 +166,9 @@ func (e *Engine) ghostFieldsOf(structName string) []*GhostField {
 // strMapLen marks the ghost array type used for strmapof:T (indexed by string).
 const strMapLen = 1 << 61
 
+// refMapLen marks the ghost array type used for refmapof:T (indexed by reference).
+const refMapLen = 1<<61 + 1
+
 func (e *Engine) typeByName(s string) types.Type {
 	s = strings.TrimSpace(s)
 	if strings.HasPrefix(s, "*") {
@@ -173,6 +176,10 @@ func (e *Engine) typeByName(s string) types.Type {
 	}
 	if strings.HasPrefix(s, "[]") {
 		return types.NewSlice(e.typeByName(s[2:]))
+	}
+	if strings.HasPrefix(s, "refmapof:") {
+		// ghost total map keyed by object reference (value semantics)
+		return types.NewArray(e.typeByName(s[9:]), refMapLen)
 	}
 	if strings.HasPrefix(s, "strmapof:") {
 		// ghost total map keyed by string (value semantics)
